@@ -40,7 +40,8 @@ def c11(rng, tier, repo):
     rounds = 3 if tier == 'quick' else 4
     histories = 12 if tier == 'quick' else 150
     script = os.path.join(HERE, 'h_repo.py')
-    for tz in ('UTC', 'Etc/GMT-5', 'Etc/GMT+5', 'Asia/Kolkata'):
+    for tz in ('UTC', 'Etc/GMT-5', 'Etc/GMT+5', 'Asia/Kolkata', 'Europe/Berlin', 'America/New_York', 'Australia/Sydney',
+               'EST5EDT,M3.2.0,M11.1.0'):
         for h in range(histories):
             seed = rng.randrange(1 << 30)
             env = dict(os.environ, TZ=tz)
@@ -56,7 +57,8 @@ def c11(rng, tier, repo):
                 samples.append({'TZ': tz, 'history': r.get('history')})
             for v in r['violations']:
                 v['what'] = 'TZ=%s: %s' % (tz, v['what'])
-                v['key'] = v['key'] + ':' + ('UTC' if tz == 'UTC' else 'east' if tz in ('Etc/GMT-5', 'Asia/Kolkata') else 'west')
+                v['key'] = v['key'] + ':' + ('UTC' if tz == 'UTC' else 'east' if tz in ('Etc/GMT-5', 'Asia/Kolkata') else
+                                            'west' if tz == 'Etc/GMT+5' else 'dst')
                 viol.append(v)
     return viol, n, distinct, samples
 
@@ -82,14 +84,27 @@ def c11_one(rng, repo, rounds):
             st = C.run_cli(['create', '--hashes', 'SHA1', '--timestamp', d])
             if st != 0:
                 return {'violations': [{'what': 'C11/C18 create failed %r' % (st,), 'key': 'c11-create', 'props': ['C11', 'C18']}], 'history': history}
+        base = datetime.datetime(2020, rng.choice([1, 7]), 15, 12, 0, 0)
+
+        def set_ts(d, when):
+            p = os.path.join(d, 'Manifest')
+            with open(p) as fh:
+                txt = fh.read()
+            cur = [l for l in txt.split('\n') if l.startswith('TIMESTAMP')][0]
+            with open(p, 'w') as fh:
+                fh.write(txt.replace(cur, 'TIMESTAMP ' + when.strftime('%Y-%m-%dT%H:%M:%SZ')))
+        old = int(base.replace(tzinfo=datetime.timezone.utc).timestamp()) - 10 ** 6
+        for d in (a, b):
+            for dp, dns, fns in os.walk(d):
+                for fn in fns:
+                    if not fn.startswith('Manifest'):
+                        os.utime(os.path.join(dp, fn), (old, old))
+            set_ts(d, base)
         for r in range(rounds):
-            # the TIMESTAMP written by the previous run, as UTC epoch seconds
+            # the TIMESTAMP of the previous run, as UTC epoch seconds
             ents = C.read_manifest_entries(os.path.join(a, 'Manifest'))
             ts = [t for t in ents if t[0] == 'TIMESTAMP'][0][1]
             prev = int(datetime.datetime.strptime(ts, '%Y-%m-%dT%H:%M:%SZ').replace(tzinfo=datetime.timezone.utc).timestamp())
-            now = int(time.time())
-            if prev > now:
-                viol.append({'what': 'C11 TIMESTAMP %s is later than the start of the scan' % ts, 'key': 'ts-future', 'props': ['C11']})
             ops = []
             touched = set()
             for _ in range(rng.randint(1, 3)):
@@ -138,15 +153,9 @@ def c11_one(rng, repo, rounds):
             if v != 0:
                 viol.append({'what': 'C11 tree does not verify after incremental update, ops %r' % (ops,), 'key': 'inc-verify', 'props': ['C11']})
                 break
-            # age the TIMESTAMP of both copies by one hour so that the next round's mtimes (prev + 30 min) are in the past
+            # the next run happens a day later (winter or summer date, so that DST rules of the TZ matter)
             for d in (a, b):
-                p = os.path.join(d, 'Manifest')
-                with open(p) as fh:
-                    txt = fh.read()
-                cur = [l for l in txt.split('\n') if l.startswith('TIMESTAMP')][0]
-                t = datetime.datetime.strptime(cur.split()[1], '%Y-%m-%dT%H:%M:%SZ') - datetime.timedelta(hours=1)
-                with open(p, 'w') as fh:
-                    fh.write(txt.replace(cur, 'TIMESTAMP ' + t.strftime('%Y-%m-%dT%H:%M:%SZ')))
+                set_ts(d, base + datetime.timedelta(days=r + 1))
     return {'violations': viol, 'history': history}
 
 
